@@ -2,7 +2,7 @@ SPEC = {
     "id": "C33",
     "coq_props": ["Properties/C33.v", "Corr/C33.v"],
     "module": "MS.Properties.C33",
-    "theorems": ["C33_guarded", "C33_no_crash", "C33_complete", "C33_refuted", "C33_refuted_time"],
+    "theorems": ["C33_holds", "C33_guarded", "C33_no_crash", "C33_reports_read_error", "C33_complete"],
     "corr_require": "Require Import MS.Corr.C33.",
     "agrees": "C33.agrees",
     "in_domain": "C33.in_domain",
@@ -12,7 +12,7 @@ SPEC = {
     "shard": 25,
     "rule": "see harness/props/c33.go: csv files over 1-5 columns of the 11 parsable fixed-width types (Epoch first, columns permuted, 30% an unused "
             "column), timeFormat timestamp, 0-10 data lines (0-60 thorough), 45% clean, otherwise per line 7% wrong field count, 4% bare quote, "
-            "6% unparsable cell, 5% unparsable timestamp, chunk size 1..lines+2; distinct = distinct input; non-trivial = inside the guard with "
+            "6% unparsable cell, 5% unparsable timestamp, chunk size 1..lines+2; distinct = distinct input; non-trivial = well-formed file with "
             ">=2 lines and more than one chunk",
     "trusted_base": [
         "Coq 8.16.1 kernel + vm_compute (no native_compute); axioms: none (Closed under the global context)",
@@ -34,10 +34,11 @@ SPEC = {
         "loaded values are compared as little-endian bytes of the dataset columns, all chunks concatenated",
     ],
     "level": "proof",
-    "level_text": "Coq theorem C33_guarded: for EVERY event stream without a csv read error, every chunk size >= 1, column mapping and float parser, "
-                  "a successful import has loaded exactly the conversion of all records (independent of chunking); C33_no_crash: no crash when "
-                  "every timestamp parses; C33_complete: a file whose every row converts is loaded for every chunk size. C33_refuted exhibits the read-error-treated-as-EOF defect (rows after a malformed line silently dropped, "
-                  "success reported), C33_refuted_time the nil-dereference panic on an unparsable timestamp.",
+    "level_text": "Coq theorem C33_holds (the property at full strength, on the code after the fixes 85c538e and 4016039): for EVERY event "
+                  "stream (records and read errors anywhere), chunk size >= 1, column mapping and float parser, the import never crashes and a "
+                  "successful import means no read error occurred and exactly the conversion of ALL records was loaded, independent of chunking; "
+                  "C33_reports_read_error: any csv read error yields an error; C33_complete: a file whose every row converts is loaded for every "
+                  "chunk size. The two former defect witnesses are regression cases (corpus/C33, Examples C33_regression_*).",
     "level_note": "No axioms. Trusted: Coq kernel/VM, gen translator, harness, encoding/csv and strconv.ParseFloat (real ones in the harness, "
                   "abstract in the theorems). Modelled not verified: cmd/connect/loader/utils.go CSVtoNumpyMulti/convertCSVtoCSM, read.go, time.go, "
                   "write.go, session/load.go loop.",
